@@ -1,4 +1,3 @@
-import BobModel.Util.Proto
-open Lean Proto
-/-- stub driver of C02: replaced when the model of this property is built -/
-def main : IO Unit := runPure fun _ => err "unsupported"
+import BobModel.Model.DigestDriver
+/-- driver of C02: see `BobModel/Model/DigestDriver.lean` for the protocol -/
+def main : IO Unit := Proto.runPure DigestDriver.handle
